@@ -377,7 +377,7 @@ def run(ctx):
                 'non-trivial = the pattern selects some but not all files')
     ctx.assumptions.append('no symlinks; file names without newline, tab, backslash, quotation marks')
     _replay_known(ctx)
-    na = ctx.n(200, 8000)
-    nb = ctx.n(100, 6000)
+    na = ctx.n(200, 6000)
+    nb = ctx.n(100, 5000)
     runner.pmap(lambda i: _case_a(ctx, i), range(na), workers=8)
     runner.pmap(lambda i: _case_b(ctx, i), range(nb), workers=8)
